@@ -28,6 +28,13 @@ class Obligation:
     status: str = ""  # discharged | violation | known
 
 
+class _UndefHolder:
+    """memo holder for the module-wide undefined-name tables (MayRaise.undefined_names only needs a __dict__)"""
+
+
+_UNDEF = _UndefHolder()
+
+
 @dataclass
 class Check:
     pid: str
@@ -54,6 +61,17 @@ class Check:
         ref = fi if isinstance(fi, str) else fi.ref
         if ref not in self.analysed_units:
             self.analysed_units.append(ref)
+            if not isinstance(fi, str):
+                # whatever a rule concludes from the shape of a function is void where the function reads a global name
+                # nothing binds: that statement raises NameError when it is reached (a `raise SomeError(...)` whose class
+                # was never imported, a logger that does not exist).  Compiler symbol tables, not a text search.
+                try:
+                    from .mayraise import MayRaise
+                    und = MayRaise.undefined_names(_UNDEF, fi)
+                except Exception:  # noqa: BLE001
+                    und = frozenset()
+                if und:
+                    self.ob("analysed-unit-reads-an-undefined-name", fi.site(), False, f"{fi.qualname} reads {sorted(und)}: no import, assignment, def or class of the module binds it and it is no builtin - the statement raises NameError when reached", key=f"undefined-name|{fi.qualname}|{','.join(sorted(und))}")
 
     def count(self, what: str, n: int = 1) -> None:
         self.analysed[what] = self.analysed.get(what, 0) + n
